@@ -49,7 +49,7 @@ async fn drive_to(server: SocketAddr, point: usize, gate: &Arc<Semaphore>, peer:
         c.send_raw(&proxy_v2(src, server)).await.ok()?;
     }
     let mut out = LoginOutcome { packets: vec![], stage: Stage::Connected, error: None };
-    let p = LoginParams { wait: Duration::from_secs(2), ..Default::default() };
+    let p = LoginParams { wait: Duration::from_secs(5), ..Default::default() };
     let until = match point {
         0 => Stage::Connected,
         1 => Stage::HandshakeSent,
@@ -95,6 +95,17 @@ fn kinds(out: &LoginOutcome) -> Vec<&'static str> {
 const BASELINE: [&str; 5] = ["LoginCookieRequest", "EncryptionRequest", "LoginSuccess", "StoreCookie", "Transfer"];
 
 fn run_schedule(spec: &Spec) -> Vec<(String, String)> {
+    // a schedule whose set-up (bringing the in-flight connections to their progress points) does not
+    // succeed says nothing about the property: it is retried, and only then reported as a machinery error
+    for _ in 0..3 {
+        if let Some(v) = run_schedule_once(spec) {
+            return v;
+        }
+    }
+    common::machinery("could not bring the in-flight connections to their progress points in three attempts")
+}
+
+fn run_schedule_once(spec: &Spec) -> Option<Vec<(String, String)>> {
     run_local(async {
         let mut v: Vec<(String, String)> = vec![];
         let mut adapters = NetAdapters::new();
@@ -104,14 +115,18 @@ fn run_schedule(spec: &Spec) -> Vec<(String, String)> {
         let cfg = ListenerCfg { timeout, proxy: spec.proxy.then_some((true, true)), ..Default::default() };
         let running = start_listener(&cfg, adapters).await;
         let Some(mut a) = drive_to(running.addr, spec.a, &gate, "127.0.0.2", spec.proxy).await else {
-            common::machinery("could not bring connection A to its progress point");
+            running.stop.cancel();
+            return None;
         };
         let mut b = if spec.b == usize::MAX {
             None
         } else {
             match drive_to(running.addr, spec.b, &gate, "127.0.0.3", spec.proxy).await {
                 Some(b) => Some(b),
-                None => common::machinery("could not bring connection B to its progress point"),
+                None => {
+                    running.stop.cancel();
+                    return None;
+                }
             }
         };
         let accept_started = Instant::now();
@@ -148,7 +163,7 @@ fn run_schedule(spec: &Spec) -> Vec<(String, String)> {
                 Ok(other) => v.push(("listener-failed".into(), format!("{other:?}"))),
                 Err(_) => v.push(("shutdown-not-bounded-by-connection-timeout".into(), format!("a non-cooperating client at '{}' kept listen() from returning for more than timeout + 2 s", point_name(spec.proxy, spec.a)))),
             }
-            return v;
+            return Some(v);
         }
         // ---- drive A to completion (cooperating); the slow backend answers everybody from now on
         gate.add_permits(2);
@@ -191,12 +206,21 @@ fn run_schedule(spec: &Spec) -> Vec<(String, String)> {
                 v.push(("new-connection-served-after-stop".into(), t));
             }
         }
-        v
+        Some(v)
     })
 }
 
 /// the same idea through the application's entry point: passage::start + SIGINT
 fn run_via_start(spec: &Spec) -> Vec<(String, String)> {
+    for _ in 0..3 {
+        if let Some(v) = run_via_start_once(spec) {
+            return v;
+        }
+    }
+    common::machinery("could not bring connection A to its progress point in three attempts (passage::start)")
+}
+
+fn run_via_start_once(spec: &Spec) -> Option<Vec<(String, String)>> {
     let port = free_port();
     let exe = std::env::current_exe().expect("exe");
     let mut child = std::process::Command::new(exe)
@@ -219,11 +243,11 @@ fn run_via_start(spec: &Spec) -> Vec<(String, String)> {
         common::machinery("passage::start did not come up");
     }
     let pid = child.id() as i32;
-    let mut v = run_local(async {
+    let set_up = run_local(async {
         let mut v = vec![];
         let gate = Arc::new(Semaphore::new(0));
         let Some(mut a) = drive_to(addr, spec.a.min(4), &gate, "127.0.0.2", false).await else {
-            common::machinery("could not bring connection A to its progress point (passage::start)");
+            return None;
         };
         unsafe {
             libc::kill(pid, libc::SIGINT);
@@ -238,8 +262,13 @@ fn run_via_start(spec: &Spec) -> Vec<(String, String)> {
         if a.out.stage != Stage::Transferred {
             v.push((format!("in-flight-connection-not-completed:{}", point_name(spec.proxy, a.point)), format!("(passage::start + SIGINT) A received {:?}, error {:?}", kinds(&a.out), a.out.error)));
         }
-        v
+        Some(v)
     });
+    let Some(mut v) = set_up else {
+        let _ = child.kill();
+        let _ = child.wait();
+        return None;
+    };
     let t0 = Instant::now();
     loop {
         match child.try_wait() {
@@ -258,7 +287,7 @@ fn run_via_start(spec: &Spec) -> Vec<(String, String)> {
             _ => std::thread::sleep(Duration::from_millis(20)),
         }
     }
-    v
+    Some(v)
 }
 
 pub fn run(cli: Cli) -> ! {
